@@ -1,5 +1,5 @@
 """C08 - pickle tags = feature, rule, scenario, examples tags, in that order."""
-from . import compiler_rules as cr
+from . import line_rules as lr, compiler_rules as cr
 from . import misc_rules as ms
 from . import builder_rules as br
 
@@ -17,6 +17,8 @@ def run(rep):
     cr.rule_skel(rep, "C08.skel")
     cr.rule_tags(rep)
     br.rule_tags_ast(rep, "C08.ast")
+    # "the tag's name": what a tag line's pieces are (any blank separates tags; the name is the piece, trimmed)
+    lr.rule_tags(rep, "C08.tagline")
     cr.rule_input(rep, "C08.isolation")
     # no hidden state: what the property promises for one use must hold for every later use as well
     ms.rule_stateless(rep, "C08")
